@@ -1,2 +1,48 @@
-(* C16 — placeholder while the model is validated; theorems follow *)
-From QV.Model Require Import Base Matrix Arith Expr Extrema Sat PCBO.
+(* C16 — symbolic coefficients commute with substitution.
+   Statements only; proofs in Proofs/HomProofs.v.
+
+   What is proved here is the part of the property that lives in qubovert's own code: every constraint method is
+   HOMOGENEOUS in its weight.  Two runs of the same call that differ only in lam
+     - take the same branch (same tag) and give the same warning -- no branch looks at the value of lam, only at `not lam`;
+     - record the same constraint and leave the same ancilla counter;
+     - add lam1 * G and lam2 * G for one and the same G            (hom:  lam1 * (m2 - m) = lam2 * (m1 - m) pointwise).
+   Taking lam1 = 1 gives the affine form  model(c) = m + c * (model(1) - m)  (C16_affine), which is what building with a
+   symbol and substituting c computes when the coefficient arithmetic is a commutative ring -- sympy's arithmetic, its
+   subs and the float conversion are outside the model and are reached by the correspondence run only
+   (harness/props/c16.py compares subs(symbol -> c) of the symbolic build with the numeric build and with this model). *)
+From QV.Model Require Import Base Matrix Arith Expr Extrema Sat PCBO Logic Convert PCSO.
+From QV.Proofs Require Import BaseProofs KeyProofs ArithProofs PenaltyArith PCBOProofs HomProofs.
+Open Scope Q_scope.
+
+Theorem C16_constraint : forall r m Pin l1 l2 lt b r1 r2,
+  add_constraint r m Pin l1 lt b = Ok r1 -> add_constraint r m Pin l2 lt b = Ok r2 -> bkind (kd m) -> ~ l1 == 0 -> ~ l2 == 0 ->
+  res_hom (tm m) r1 r2 l1 l2.
+Proof. exact add_constraint_hom. Qed.
+Print Assumptions C16_constraint.
+
+Theorem C16_logic : forall g is_eq m ops l1 l2 r1 r2,
+  add_logic g is_eq m ops l1 = Ok r1 -> add_logic g is_eq m ops l2 = Ok r2 -> bkind (kd m) -> ~ l1 == 0 -> ~ l2 == 0 ->
+  res_hom (tm m) r1 r2 l1 l2.
+Proof. exact add_logic_hom. Qed.
+Print Assumptions C16_logic.
+
+Theorem C16_spin : forall r m Hin l1 l2 lt b r1 r2,
+  pcso_add r m Hin l1 lt b = Ok r1 -> pcso_add r m Hin l2 lt b = Ok r2 -> kd m = KPcso -> ~ l1 == 0 -> ~ l2 == 0 ->
+  res_hom_S (tm m) r1 r2 l1 l2.
+Proof. exact pcso_add_hom. Qed.
+Print Assumptions C16_spin.
+
+(* the model built with weight c is the model built with weight 1, with the added part scaled by c *)
+Theorem C16_affine : forall r m Pin c lt b a w1 t1 mc w2 t2,
+  add_constraint r m Pin 1 lt b = Ok (a, w1, t1) -> add_constraint r m Pin c lt b = Ok (mc, w2, t2) -> bkind (kd m) -> ~ c == 0 ->
+  (forall x, boolean_env x -> eval x (tm mc) == eval x (tm m) + c * (eval x (tm a) - eval x (tm m)))
+  /\ kd mc = kd a /\ anc mc = anc a /\ cons mc = cons a /\ w2 = w1 /\ t2 = t1.
+Proof. exact add_constraint_affine. Qed.
+Print Assumptions C16_affine.
+
+(* non-vacuity: x + y + z - 2 <= 0 with weights 1 and 5/2: same branch, same ancillas *)
+Example C16_example :
+  exists a c w t, add_constraint RLe (empty_model KPcbo) [([0]%nat, 1); ([1]%nat, 1); ([2]%nat, 1); ([], -(2))] 1 true (None, None) = Ok (a, w, t)
+    /\ add_constraint RLe (empty_model KPcbo) [([0]%nat, 1); ([1]%nat, 1); ([2]%nat, 1); ([], -(2))] (5 # 2) true (None, None) = Ok (c, w, t)
+    /\ anc a = anc c /\ (0 < anc a)%nat.
+Proof. eexists. eexists. eexists. eexists. vm_compute. repeat split. apply Nat.lt_0_succ. Qed.
